@@ -18,6 +18,11 @@ def cases(tier, rng):
             ({"k": "l", "x": ids}, "object"),                  # a column of a mixed table (object dtype holding Python strings)
             ({"k": "m", "x": [[i] for i in ids]}, "object"),
         ]
+        if ln >= 3:
+            # a collection that names a well more than once is cycled as given
+            rep = ids[:2] + [ids[0]] + ids[2:]
+            shapes.append(({"k": "l", "x": rep}, "list"))
+            shapes.append(({"k": "l", "x": rep + rep[:1]}, "ndarray"))
         if ln % 2 == 0:
             # 2-D id array with two columns as trough.wells of a two-column trough
             h = ln // 2
@@ -41,6 +46,10 @@ def cases(tier, rng):
         ps.append({"x": "tw", "n": -rng.randint(2, 50), "ncls": "int", "wells": shapes[0][0], "present": "list", "len": ln})
         ps.append({"x": "tw", "n": rng.randint(0, 30), "ncls": "float", "wells": shapes[0][0], "present": "list", "len": ln})
         ps.append({"x": "tw", "n": rng.randint(0, 30), "ncls": "intfloat", "wells": shapes[0][0], "present": "list", "len": ln})
+        # narrow numpy integers close to the maximum of their type (if they are accepted at all, the result is that of the int)
+        for n8 in (125, 127, 120 + (ln % 7)):
+            ps.append({"x": "tw", "n": n8, "ncls": "np8", "wells": shapes[0][0], "present": "list", "len": ln})
+        ps.append({"x": "tw", "n": 250 + (ln % 5), "ncls": "npu8", "wells": shapes[0][0], "present": "list", "len": ln})
     # empty well collections
     for n in (0, 1, 5):
         ps.append({"x": "tw", "n": n, "ncls": "int", "wells": {"k": "l", "x": []}, "present": "list", "len": 0})
